@@ -126,6 +126,11 @@ func (m *imap) Delete(_ context.Context, gvk schema.GroupVersionKind) error {
 	return nil
 }
 
+type nopRecorder struct{}
+
+func (nopRecorder) RecordDynamicCacheInformers(int)                        {}
+func (nopRecorder) RecordDynamicCacheObjects(schema.GroupVersionKind, int) {}
+
 // ---- work queue stub ----------------------------------------------------------------
 
 type fqueue struct {
@@ -237,7 +242,12 @@ func planC12(s *Sim, spec cs.RunSpec) {
 	must(appsv1.AddToScheme(scheme))
 	c := &c12{sim: s}
 	c.im = &imap{c: c, running: map[schema.GroupVersionKind]*finf{}}
-	c.cache = dynamiccache.NewCacheForSim(scheme, c.im)
+	if s.Scn.Bool("metrics-recorder") {
+		// production wires a metrics recorder: Watch and Free then list every watched kind at their end
+		c.cache = dynamiccache.NewCacheForSimWithRecorder(scheme, c.im, nopRecorder{})
+	} else {
+		c.cache = dynamiccache.NewCacheForSim(scheme, c.im)
+	}
 	s.drawFaultMix("informer-start-failure", "informer-sync-failure", "handler-registration-failure")
 
 	// ---- scenario ----
